@@ -76,6 +76,8 @@ def check_step(w):
         got = ctx.counters[n].value
         if n == who:
             exp = exp_self
+        elif op in ('set', 'add'):
+            exp = old[n]            # LaTeX: \\setcounter / \\addtocounter are plain assignments, nothing is reset
         else:
             exp = 0 if (who != '' and _within(spec, n, who)) else old[n]
         if got != exp:
@@ -106,8 +108,16 @@ def check_alph(w):
     return ok, 'representations of %d: %r' % (v, (c.Alph, c.alph, c.arabic, c.Roman, c.roman, c.fnsymbol))
 
 
-for _nm in ('Counter.resetcounters', 'Counter.stepcounter', 'Counter.setcounter', 'Counter.addtocounter'):
-    CONTRACTS[_nm] = dict(check=check_step, gen=gen_forest)
+def _gen_op(op):
+    def g(rng):
+        w = gen_forest(rng)
+        w['op'] = op
+        return w
+    return g
+
+
+for _nm, _op in (('Counter.resetcounters', 'reset'), ('Counter.stepcounter', 'step'), ('Counter.setcounter', 'set'), ('Counter.addtocounter', 'add')):
+    CONTRACTS[_nm] = dict(check=check_step, gen=_gen_op(_op))
 for _nm in ('Counter.Alph', 'Counter.alph', 'Counter.arabic', 'Counter.Roman', 'Counter.roman', 'Counter.fnsymbol'):
     CONTRACTS[_nm] = dict(check=check_alph, small=lambda: ({'v': v} for v in range(1, 27)))
 
@@ -183,3 +193,164 @@ def check_lists(w):
 
 
 CONTRACTS['List.invoke'] = dict(check=check_lists, gen=lambda rng: {'src': ' '.join(_gen_list(rng, 1) for _ in range(rng.randrange(1, 3)))})
+
+
+# ---------------------------------------------------------------- bounded: numbers of generated documents vs LaTeX's counter rules
+class _Latex:
+    """Independent reading of LaTeX's counter rules (latex.ltx \\stepcounter / \\setcounter / \\addtocounter / \\@startsection, article.cls)."""
+    def __init__(self, depth):
+        self.v = dict(section=0, subsection=0, subsubsection=0, equation=0, figure=0, table=0)
+        self.within = dict(subsection='section', subsubsection='subsection')
+        self.depth = depth
+        self.fmt = {}
+
+    def new(self, name, within=None):
+        self.v[name] = 0
+        if within:
+            self.within[name] = within
+
+    def step(self, name):
+        self.v[name] += 1
+        self._reset(name)
+
+    def _reset(self, name):
+        for c, w in self.within.items():
+            if w == name:
+                self.v[c] = 0
+                self._reset(c)
+
+    def the(self, name):
+        if name == 'subsection':
+            return '%d.%d' % (self.v['section'], self.v['subsection'])
+        if name == 'subsubsection':
+            return '%d.%d.%d' % (self.v['section'], self.v['subsection'], self.v['subsubsection'])
+        if name in self.fmt:
+            return '%s.%d' % (self.the(self.fmt[name]), self.v[name])
+        return str(self.v[name])
+
+
+SECLEVEL = dict(section=1, subsection=2, subsubsection=3)
+
+
+def gen_numbering(rng):
+    """A random article: sectioning (starred or not), equations, floats with captions, theorem-like environments (own counter, numbered
+    within section, shared counter), a user counter declared within another, and explicit \\setcounter / \\addtocounter / \\stepcounter."""
+    L = _Latex(2)
+    pre, body, expect, marks = [], [], [], []
+    thm_within = rng.choice([None, 'section', 'subsection'])
+    pre.append('\\newtheorem{thm}{Theorem}' + ('[%s]' % thm_within if thm_within else ''))
+    L.new('thm', thm_within)
+    if thm_within:
+        L.fmt['thm'] = thm_within
+    shared = rng.random() < 0.6
+    if shared:
+        pre.append('\\newtheorem{lem}[thm]{Lemma}')
+    cx_within = rng.choice([None, 'section', 'subsection', 'thm', 'equation'])
+    pre.append('\\newcounter{cx}' + ('[%s]' % cx_within if cx_within else ''))
+    L.new('cx', cx_within)
+    names = ['section', 'subsection', 'equation', 'cx', 'thm', 'figure']
+    for _ in range(rng.randrange(4, 16)):
+        r = rng.random()
+        if r < 0.30:
+            kind = rng.choice(['section', 'section', 'subsection', 'subsection', 'subsubsection'])
+            star = rng.random() < 0.2
+            body.append('\\%s%s{T}' % (kind, '*' if star else ''))
+            if star:
+                expect.append((kind, None))
+            elif SECLEVEL[kind] > L.depth:
+                expect.append((kind, None))          # deeper than the numbering depth: no number (and LaTeX does not step)
+            else:
+                L.step(kind)
+                expect.append((kind, L.the(kind)))
+        elif r < 0.42:
+            body.append('\\begin{equation}x\\end{equation}')
+            L.step('equation')
+            expect.append(('equation', L.the('equation')))
+        elif r < 0.52:
+            fl = rng.choice(['figure', 'table'])
+            body.append('\\begin{%s}\\caption{c}\\end{%s}' % (fl, fl))
+            L.step(fl)
+            expect.append(('caption', L.the(fl)))
+        elif r < 0.66:
+            env = 'lem' if (shared and rng.random() < 0.5) else 'thm'
+            body.append('\\begin{%s}x\\end{%s}' % (env, env))
+            L.step('thm')
+            expect.append(('thmenv', L.the('thm')))
+        elif r < 0.76:
+            body.append('\\stepcounter{cx}')
+            L.step('cx')
+        elif r < 0.84:
+            nm, val = rng.choice(names), rng.randrange(0, 9)
+            body.append('\\setcounter{%s}{%d}' % (nm, val))
+            L.v[nm] = val
+        elif r < 0.90:
+            nm, val = rng.choice(names), rng.randrange(1, 4)
+            body.append('\\addtocounter{%s}{%d}' % (nm, val))
+            L.v[nm] += val
+        else:
+            nm = rng.choice(['cx', 'cx', 'equation', 'section', 'thm'])
+            body.append('<<\\the%s>>' % nm)
+            marks.append(L.the(nm))
+    body.append('<<\\thecx>>')
+    marks.append(L.the('cx'))
+    src = '\\documentclass{article}\n%s\n\\begin{document}\n%s\n\\end{document}\n' % ('\n'.join(pre), '\n'.join(body))
+    return dict(src=src, expect=expect, marks=marks, text=src)
+
+
+def check_numbering(w):
+    import re
+    from plasTeX.TeX import TeX
+    from util import time_limit
+    t = TeX()
+    t.input(w['src'])
+    try:
+        with time_limit(20):
+            d = t.parse()
+    except Exception as e:
+        return False, 'parsing raised %s: %s' % (type(e).__name__, e)
+    got = []
+
+    def walk(n):
+        for c in n.childNodes:
+            if c.nodeType == 1:
+                if c.nodeName in ('section', 'subsection', 'subsubsection', 'equation', 'caption', 'thmenv'):
+                    r = getattr(c, 'ref', None)
+                    got.append((c.nodeName, None if r is None else r.textContent))
+                walk(c)
+    walk(d)
+    exp = [(k, v) for k, v in w['expect']]
+    if got != exp:
+        i = next((j for j, (a, b) in enumerate(zip(got, exp)) if a != b), min(len(got), len(exp)))
+        return False, 'numbered object #%d: plasTeX %r, LaTeX rules %r (all: %r vs %r)' % (i, got[i:i + 1], exp[i:i + 1], got, exp)
+    marks = re.findall(r'<<(.*?)>>', d.textContent)
+    if marks != w['marks']:
+        return False, 'printed counter values %r, LaTeX rules %r' % (marks, w['marks'])
+    return True, ''
+
+
+def classify_numbering(w, detail):
+    return None
+
+
+def bounded_numbering(budget, rng):
+    import time
+    t0, n, seen, samples = time.time(), 0, set(), []
+    while time.time() - t0 < budget or n < 40:
+        w = gen_numbering(rng)
+        n += 1
+        if w['src'] not in seen:
+            seen.add(w['src'])
+            if len(samples) < 2:
+                samples.append(w['src'][:500])
+        ok, d = check_numbering(w)
+        if not ok:
+            return False, n, d, dict(text=w['src'], expect=w['expect'], marks=w['marks'])
+    return True, n, '', None, dict(distinct=len(seen), samples=samples, rule='random articles of the grammar (see bound); distinct = source not seen before')
+
+
+BOUNDED.append(('bounded/numbering', 'the number attached to every numbered object and every printed counter value equal the ones LaTeX\'s counter rules give '
+                '(independent reading of latex.ltx / article.cls: step resets the counters declared within, transitively; set / add are plain assignments; '
+                'starred forms and objects deeper than the numbering depth get no number)',
+                'random articles: 4-15 constructs among sectioning to 3 levels (starred or not), equations, figure / table captions, theorem-like environments '
+                '(own counter, within section / subsection, shared counter), a user counter declared within another counter, \\setcounter / \\addtocounter / '
+                '\\stepcounter, printed \\the<counter>', bounded_numbering))
